@@ -376,12 +376,11 @@ open Wellen.Bits Wellen.Store Wellen.Spec Wellen.VcdBody in
 /-- property-level meaning of a body: all tokens (also those on the line of `$enddefinitions`),
 `$dumpall` ignored like the other dump keywords, implicit time 0 before leading values -/
 def specVcd (d : Decls) (vars : List (List Nat × SigType)) (rm : RealMap) (body : List Nat) : String × String :=
-  let toksAll := (splitWs body).filter (· ≠ kwDumpall)
+  let toksAll := (splitWs body).filter (· ≠ kwDumpall)      -- `$dumpall` brackets ordinary changes of the current time step
   let out := interpT (endsWs body) .first toksAll []
-  -- findings: tokens on the first line (F5a), a `$dumpall` block after time 0 (F24)
+  -- finding: tokens on the first line (F5a); the `$dumpall` class F24 is fixed
   let firstLineToks := splitWs (body.take (body.length - (dropLine body).length))
-  let hasDumpall := (splitWs body).contains kwDumpall
-  let fid := if !firstLineToks.isEmpty then "F5a" else if hasDumpall then "F24" else "-"
+  let fid := if !firstLineToks.isEmpty then "F5a" else "-"
   match out with
   | .err _ => ("-", "-")
   | .ok evs =>
